@@ -85,7 +85,11 @@ def cases(rng, tier):
     for i in range(nrand):
         nvars = rng.choice([1, 2, 3, 4, 5, 6, 8, 12])
         mode = rng.random()
-        if mode < 0.45:   # dense, unique
+        if mode < 0.05:   # dense, unique, two-digit group numbers
+            nvars = rng.randint(11, 14)
+            pairs = [(g, rng.choice([0, 1, 5])) for g in range(nvars)]
+            rng.shuffle(pairs)
+        elif mode < 0.45:   # dense, unique
             ng = rng.randint(1, min(8, nvars))
             groups = list(range(ng)) + [rng.randrange(ng) for _ in range(nvars - ng)]
             rng.shuffle(groups)
